@@ -39,3 +39,213 @@ Example C10_bind_example :
   let p2 := {| a_fid := 2; a_name := []; a_desc := []; a_req := (-1)%Z; a_max := (-1)%Z; a_ty := TSlice (TScalar KString); a_base := [] |} in
   bind_spec [p1; p2] [s2l "a"; s2l "b"; s2l "c"] = ([(p1, s2l "a"); (p2, s2l "b"); (p2, s2l "c")], []).
 Proof. reflexivity. Qed.
+
+(* ---- added by bin/mkprops (batch 2) ---- *)
+From GoFlags Require Import Base.Str Base.Utf8 Golib.Strings Golib.Strconv Model.Types Model.Tag Model.Scan Model.Lookup Model.Convert Model.State Model.Closest Model.Help Model.Parse Model.Ini Model.Complete.
+From GoFlags Require Import Proofs.PositionalSpec.
+
+(* END TO END: on a command line mixing option occurrences (any spelling) and plain words, the plain words fill the positional fields in declaration order (each converted to its field type, the trailing slice absorbing the rest, the surplus becoming remaining arguments) and the options are set as their fold - independently *)
+Theorem C10_loop_binds_positionals_in_declaration_order :
+  forall (cfg : pconfig) (orc : oracles) (root : command) (ht : rt -> str) (toks : list str)
+           (items : list item) (fuel : nat) (s : pst) (r : rt) (s' : pst) (r' : rt),
+         mixed cfg (ps_lk s) toks items ->
+         ps_args s = toks ->
+         (Datatypes.length toks < fuel)%nat ->
+         cmd_subs (cur_cmd root s) = [] ->
+         po_passafter (pc_opts cfg) = false ->
+         (forall (oc : octx) (a : option str),
+          In (oc, a) (occs items) -> ~ In (o_fid (oc_opt oc)) (map a_fid (ps_pos s))) ->
+         ps_err s = None ->
+         run_loop cfg orc root ht fuel s r = Ok (s', r') ->
+         ps_err s' = None ->
+         let B := fst (ArgsSpec.bind_spec (ps_pos s) (words items)) in
+         exists rp ro : rt,
+           bound orc B r = Some rp /\
+           rp = fold_left (ArgsSpec.store_binding orc) B r /\
+           (forall k : nat, In k (map a_fid (ps_pos s)) -> rt_vals r' k = rt_vals rp k) /\
+           ps_ret s' = ps_ret s ++ snd (ArgsSpec.bind_spec (ps_pos s) (words items)) /\
+           ps_pos s' = ArgsSpec.queue_after (ps_pos s) (words items) /\
+           DenoteSpec.denote orc (pc_nsdelim cfg) ht (occs items) r = Ok (ro, None) /\
+           (forall k : nat, ~ In k (map a_fid (ps_pos s)) -> rt_vals r' k = rt_vals ro k) /\
+           (forall k : nat, rt_fl r' k = rt_fl ro k) /\
+           rt_active r' = rt_active ro /\
+           rt_logs r' = rt_logs ro /\
+           (forall k : nat,
+            ~ In k (map a_fid (ps_pos s)) ->
+            (forall (oc : octx) (a : option str), In (oc, a) (occs items) -> o_fid (oc_opt oc) <> k) ->
+            rt_vals r' k = rt_vals r k /\ rt_fl r' k = rt_fl r k) /\
+           ps_args s' = [] /\ ps_arg s' = last toks (ps_arg s) /\ ps_cmd s' = ps_cmd s /\ ps_lk s' = ps_lk s.
+Proof. exact @C10_loop_binds_in_order. Qed.
+Print Assumptions C10_loop_binds_positionals_in_declaration_order.
+
+Theorem C10_loop_binds_positionals_general_context :
+  forall (cfg : pconfig) (orc : oracles) (root : command) (ht : rt -> str) (toks : list str)
+           (items : list item) (fuel : nat) (s : pst) (r : rt) (s' : pst) (r' : rt),
+         mixed cfg (ps_lk s) toks items ->
+         ps_args s = toks ->
+         (Datatypes.length toks < fuel)%nat ->
+         po_passafter (pc_opts cfg) = false ->
+         arg_context (cur_cmd root s) (ps_lk s) (ps_pos s) (ps_ret s) (words items) ->
+         (forall (oc : octx) (a : option str),
+          In (oc, a) (occs items) -> ~ In (o_fid (oc_opt oc)) (map a_fid (ps_pos s))) ->
+         ps_err s = None ->
+         run_loop cfg orc root ht fuel s r = Ok (s', r') ->
+         ps_err s' = None ->
+         let B := fst (ArgsSpec.bind_spec (ps_pos s) (words items)) in
+         exists rp ro : rt,
+           bound orc B r = Some rp /\
+           rp = fold_left (ArgsSpec.store_binding orc) B r /\
+           (forall k : nat, In k (map a_fid (ps_pos s)) -> rt_vals r' k = rt_vals rp k) /\
+           ps_ret s' = ps_ret s ++ snd (ArgsSpec.bind_spec (ps_pos s) (words items)) /\
+           ps_pos s' = ArgsSpec.queue_after (ps_pos s) (words items) /\
+           DenoteSpec.denote orc (pc_nsdelim cfg) ht (occs items) r = Ok (ro, None) /\
+           (forall k : nat, ~ In k (map a_fid (ps_pos s)) -> rt_vals r' k = rt_vals ro k) /\
+           (forall k : nat, rt_fl r' k = rt_fl ro k) /\
+           rt_active r' = rt_active ro /\
+           rt_logs r' = rt_logs ro /\
+           (forall k : nat,
+            ~ In k (map a_fid (ps_pos s)) ->
+            (forall (oc : octx) (a : option str), In (oc, a) (occs items) -> o_fid (oc_opt oc) <> k) ->
+            rt_vals r' k = rt_vals r k /\ rt_fl r' k = rt_fl r k) /\
+           ps_args s' = [] /\ ps_arg s' = last toks (ps_arg s) /\ ps_cmd s' = ps_cmd s /\ ps_lk s' = ps_lk s.
+Proof. exact @C10_loop_binds_in_order_gen. Qed.
+Print Assumptions C10_loop_binds_positionals_general_context.
+
+Theorem C10_run_succeeds_iff_conversions_succeed :
+  forall (cfg : pconfig) (orc : oracles) (root : command) (ht : rt -> str) (toks : list str)
+           (items : list item) (fuel : nat) (s : pst) (r rp ro : rt),
+         mixed cfg (ps_lk s) toks items ->
+         ps_args s = toks ->
+         (Datatypes.length toks < fuel)%nat ->
+         po_passafter (pc_opts cfg) = false ->
+         arg_context (cur_cmd root s) (ps_lk s) (ps_pos s) (ps_ret s) (words items) ->
+         (forall (oc : octx) (a : option str),
+          In (oc, a) (occs items) -> ~ In (o_fid (oc_opt oc)) (map a_fid (ps_pos s))) ->
+         bound orc (fst (ArgsSpec.bind_spec (ps_pos s) (words items))) r = Some rp ->
+         DenoteSpec.denote orc (pc_nsdelim cfg) ht (occs items) r = Ok (ro, None) ->
+         exists (s' : pst) (r' : rt),
+           run_loop cfg orc root ht fuel s r = Ok (s', r') /\
+           ps_err s' = ps_err s /\
+           reached s toks [] (words items) s' /\ rt_split (fun k : nat => In k (map a_fid (ps_pos s))) r' rp ro.
+Proof. exact @C10_loop_binds_in_order_conv. Qed.
+Print Assumptions C10_run_succeeds_iff_conversions_succeed.
+
+(* two command lines with the same plain words and the same option occurrences, interleaved in any way, give the same fields, flags, logs and remaining arguments *)
+Theorem C10_interleaving_with_options_is_irrelevant :
+  forall (cfg : pconfig) (orc : oracles) (root : command) (ht : rt -> str) (toks1 toks2 : list str)
+           (items1 items2 : list item) (fuel1 fuel2 : nat) (s1 s2 : pst) (r : rt) (s1' s2' : pst)
+           (r1' r2' : rt),
+         words items1 = words items2 ->
+         occs items1 = occs items2 ->
+         ps_lk s1 = ps_lk s2 ->
+         ps_pos s1 = ps_pos s2 ->
+         ps_ret s1 = ps_ret s2 ->
+         ps_cmd s1 = ps_cmd s2 ->
+         mixed cfg (ps_lk s1) toks1 items1 ->
+         mixed cfg (ps_lk s2) toks2 items2 ->
+         ps_args s1 = toks1 ->
+         ps_args s2 = toks2 ->
+         (Datatypes.length toks1 < fuel1)%nat ->
+         (Datatypes.length toks2 < fuel2)%nat ->
+         cmd_subs (cur_cmd root s1) = [] ->
+         po_passafter (pc_opts cfg) = false ->
+         (forall (oc : octx) (a : option str),
+          In (oc, a) (occs items1) -> ~ In (o_fid (oc_opt oc)) (map a_fid (ps_pos s1))) ->
+         ps_err s1 = None ->
+         ps_err s2 = None ->
+         run_loop cfg orc root ht fuel1 s1 r = Ok (s1', r1') ->
+         ps_err s1' = None ->
+         run_loop cfg orc root ht fuel2 s2 r = Ok (s2', r2') ->
+         ps_err s2' = None ->
+         (forall k : nat, rt_vals r1' k = rt_vals r2' k) /\
+         (forall k : nat, rt_fl r1' k = rt_fl r2' k) /\
+         rt_active r1' = rt_active r2' /\
+         rt_logs r1' = rt_logs r2' /\
+         ps_ret s1' = ps_ret s2' /\
+         ps_pos s1' = ps_pos s2' /\
+         ps_cmd s1' = ps_cmd s2' /\ ps_lk s1' = ps_lk s2' /\ ps_args s1' = ps_args s2'.
+Proof. exact @C10_interleaving_irrelevant. Qed.
+Print Assumptions C10_interleaving_with_options_is_irrelevant.
+
+(* after `--` every token, whatever it looks like, continues the positional binding and sets no option *)
+Theorem C10_after_the_terminator_everything_is_positional :
+  forall (cfg : pconfig) (orc : oracles) (root : command) (ht : rt -> str) (pre : list str)
+           (items : list item) (tail : list str) (fuel : nat) (s : pst) (r : rt) (s' : pst) 
+           (r' : rt),
+         po_passdd (pc_opts cfg) = true ->
+         mixed cfg (ps_lk s) pre items ->
+         ps_args s = pre ++ s2l "--" :: tail ->
+         (Datatypes.length pre < fuel)%nat ->
+         cmd_subs (cur_cmd root s) = [] ->
+         po_passafter (pc_opts cfg) = false ->
+         (forall (oc : octx) (a : option str),
+          In (oc, a) (occs items) -> ~ In (o_fid (oc_opt oc)) (map a_fid (ps_pos s))) ->
+         ps_err s = None ->
+         run_loop cfg orc root ht fuel s r = Ok (s', r') ->
+         ps_err s' = None ->
+         let P := fun k : nat => In k (map a_fid (ps_pos s)) in
+         let W := words items ++ tail in
+         exists (sm : pst) (rm : rt) (sa : pst) (rp0 rp ro : rt),
+           reached s pre (s2l "--" :: tail) (words items) sm /\
+           bound orc (fst (ArgsSpec.bind_spec (ps_pos s) (words items))) r = Some rp0 /\
+           DenoteSpec.denote orc (pc_nsdelim cfg) ht (occs items) r = Ok (ro, None) /\
+           rt_split P rm rp0 ro /\
+           add_args orc tail (ps_with_args sm (s2l "--") tail) rm = Ok (sa, r', None) /\
+           s' = ps_with_args sa (s2l "--") tail /\
+           bound orc (fst (ArgsSpec.bind_spec (ps_pos s) W)) r = Some rp /\
+           rt_split P r' rp ro /\
+           ps_ret s' = ps_ret s ++ snd (ArgsSpec.bind_spec (ps_pos s) W) /\
+           ps_pos s' = ArgsSpec.queue_after (ps_pos s) W /\
+           ps_args s' = tail /\ ps_arg s' = s2l "--" /\ ps_cmd s' = ps_cmd s /\ ps_lk s' = ps_lk s.
+Proof. exact @C10_after_terminator_everything_is_positional. Qed.
+Print Assumptions C10_after_the_terminator_everything_is_positional.
+
+Theorem C10_failed_conversion_stops_the_loop :
+  forall (cfg : pconfig) (orc : oracles) (root : command) (ht : rt -> str) (pre : list str)
+           (items : list item) (w : str) (rest : list str) (fuel : nat) (s : pst) (r rp ro : rt) 
+           (p : arg) (q : list arg) (v : value) (m : str),
+         mixed cfg (ps_lk s) pre items ->
+         plain_word cfg w ->
+         ps_args s = pre ++ w :: rest ->
+         (Datatypes.length pre < fuel)%nat ->
+         cmd_subs (cur_cmd root s) = [] ->
+         po_passafter (pc_opts cfg) = false ->
+         (forall (oc : octx) (a : option str),
+          In (oc, a) (occs items) -> ~ In (o_fid (oc_opt oc)) (map a_fid (ps_pos s))) ->
+         bound orc (fst (ArgsSpec.bind_spec (ps_pos s) (words items))) r = Some rp ->
+         DenoteSpec.denote orc (pc_nsdelim cfg) ht (occs items) r = Ok (ro, None) ->
+         ArgsSpec.queue_after (ps_pos s) (words items) = p :: q ->
+         convert orc (a_base p) w (a_ty p) (rt_vals rp (a_fid p)) = Ok (v, Some m) ->
+         exists (s' : pst) (r' : rt),
+           run_loop cfg orc root ht fuel s r = Ok (s', r') /\
+           ps_err s' = Some (EForeign m) /\
+           ps_args s' = rest /\
+           ps_arg s' = w /\
+           ps_pos s' = p :: q /\
+           ps_ret s' = ps_ret s ++ snd (ArgsSpec.bind_spec (ps_pos s) (words items)) /\
+           ps_cmd s' = ps_cmd s /\
+           ps_lk s' = ps_lk s /\
+           rt_vals r' (a_fid p) = v /\
+           (forall k : nat, In k (map a_fid (ps_pos s)) -> k <> a_fid p -> rt_vals r' k = rt_vals rp k) /\
+           same_but (fun k : nat => In k (map a_fid (ps_pos s))) r' ro.
+Proof. exact @C10_conversion_failure_stops. Qed.
+Print Assumptions C10_failed_conversion_stops_the_loop.
+
+Theorem C10_scalar_fields_take_the_first_words :
+  forall (scal : list arg) (ws : list str),
+         Forall (fun p : arg => is_slice (a_ty p) = false) scal ->
+         ArgsSpec.bind_spec scal ws = (combine scal ws, skipn (Datatypes.length scal) ws) /\
+         ArgsSpec.queue_after scal ws = skipn (Datatypes.length ws) scal.
+Proof. exact @bind_spec_scalars. Qed.
+Print Assumptions C10_scalar_fields_take_the_first_words.
+
+Theorem C10_trailing_slice_absorbs_the_rest :
+  forall (scal : list arg) (sl : arg) (ws : list str),
+         Forall (fun p : arg => is_slice (a_ty p) = false) scal ->
+         is_slice (a_ty sl) = true ->
+         ArgsSpec.bind_spec (scal ++ [sl]) ws =
+         (combine scal ws ++ map (pair sl) (skipn (Datatypes.length scal) ws), []) /\
+         ArgsSpec.queue_after (scal ++ [sl]) ws = skipn (Datatypes.length ws) scal ++ [sl].
+Proof. exact @bind_spec_trailing_slice. Qed.
+Print Assumptions C10_trailing_slice_absorbs_the_rest.
+
